@@ -31,3 +31,11 @@ here = os.path.join(os.path.dirname(os.path.dirname(os.path.abspath(__file__))),
 open(os.path.join(here, "known_constants.txt"), "w").write("# module:NAME / module:Class.NAME present in the tree the rules were written against\n" + "\n".join(sorted(consts)) + "\n")
 json.dump(fps, open(os.path.join(here, "known_fingerprints.json"), "w"), indent=0, sort_keys=True)
 print(len(consts), "constants,", len(fps) // 2, "function fingerprints")
+mods = []
+for pkg in PACKAGES:
+    for dp, dn, fn in os.walk(os.path.join(repo, pkg)):
+        for f in sorted(fn):
+            if f.endswith(".py"):
+                n_ = os.path.relpath(os.path.join(dp, f), repo)[:-3].replace(os.sep, ".")
+                mods.append(n_[: -len(".__init__")] if n_.endswith(".__init__") else n_)
+open(os.path.join(here, "known_modules.txt"), "w").write("# modules present in the tree the rules were written against (a module not listed was introduced by a later refactoring)\n" + "\n".join(sorted(mods)) + "\n")
